@@ -20,7 +20,7 @@ func cloneInput(in *Input) *Input {
 }
 
 // shrinkInput returns a smaller input for which fails() still holds.
-func shrinkInput(in *Input, fails func(*Input) bool, budget time.Duration) (*Input, int) {
+func shrinkInput(in *Input, fails func(*Input) bool, decide func(*Input) []int, budget time.Duration) (*Input, int) {
 	deadline := time.Now().Add(budget)
 	cur := cloneInput(in)
 	tries := 0
@@ -42,11 +42,17 @@ func shrinkInput(in *Input, fails func(*Input) bool, budget time.Duration) (*Inp
 	// the pseudo-random tail of the schedule becomes explicit decisions (same run), which the
 	// passes below can then cut and zero one by one
 	try(func(c *Input) bool {
-		if c.TailPct == 0 {
+		if c.TailPct == 0 && c.PCTDepth == 0 {
 			return false
 		}
-		c.Choices = materialiseTail(c.Choices, c.TailSeed, c.TailPct, 4000)
-		c.TailSeed, c.TailPct = 0, 0
+		if decide != nil {
+			c.Choices = decide(c) // what the run actually decided, step by step
+		} else if c.PCTDepth == 0 {
+			c.Choices = materialiseTail(c.Choices, c.TailSeed, c.TailPct, 4000)
+		} else {
+			return false
+		}
+		c.TailSeed, c.TailPct, c.PCTSeed, c.PCTDepth, c.PCTSpan = 0, 0, 0, 0, 0
 		return true
 	})
 	for pass := 0; pass < 6 && time.Now().Before(deadline); pass++ {
@@ -173,7 +179,11 @@ func shrinkInput(in *Input, fails func(*Input) bool, budget time.Duration) (*Inp
 		// knobs
 		for _, f := range []func(c *Input) bool{
 			func(c *Input) bool { ch := len(c.Cfg.SitesOff) > 0; c.Cfg.SitesOff = nil; return ch },
-			func(c *Input) bool { ch := c.TailPct != 0; c.TailSeed, c.TailPct = 0, 0; return ch },
+			func(c *Input) bool {
+				ch := c.TailPct != 0 || c.PCTDepth != 0
+				c.TailSeed, c.TailPct, c.PCTSeed, c.PCTDepth, c.PCTSpan = 0, 0, 0, 0, 0
+				return ch
+			},
 			func(c *Input) bool { ch := len(c.Cfg.FineSites) > 0; c.Cfg.FineSites = nil; return ch },
 			func(c *Input) bool {
 				if len(c.Cfg.FineSites) < 2 {
@@ -255,7 +265,7 @@ func cloneLockerIn(in *LockerIn) *LockerIn {
 	return &out
 }
 
-func shrinkLockerIn(in *LockerIn, fails func(*LockerIn) bool, budget time.Duration) (*LockerIn, int) {
+func shrinkLockerIn(in *LockerIn, fails func(*LockerIn) bool, decide func(*LockerIn) []int, budget time.Duration) (*LockerIn, int) {
 	deadline := time.Now().Add(budget)
 	cur := cloneLockerIn(in)
 	tries := 0
@@ -275,11 +285,11 @@ func shrinkLockerIn(in *LockerIn, fails func(*LockerIn) bool, budget time.Durati
 		return false
 	}
 	try(func(c *LockerIn) bool {
-		if c.TailPct == 0 {
+		if c.TailPct == 0 && c.PCTDepth == 0 {
 			return false
 		}
-		c.Choices = materialiseTail(c.Choices, c.TailSeed, c.TailPct, 3000)
-		c.TailSeed, c.TailPct = 0, 0
+		c.Choices = decide(c)
+		c.TailSeed, c.TailPct, c.PCTSeed, c.PCTDepth, c.PCTSpan = 0, 0, 0, 0, 0
 		return true
 	})
 	for pass := 0; pass < 6 && time.Now().Before(deadline); pass++ {
@@ -360,7 +370,11 @@ func shrinkLockerIn(in *LockerIn, fails func(*LockerIn) bool, budget time.Durati
 		if try(func(c *LockerIn) bool { ch := len(c.SitesOff) > 0; c.SitesOff = nil; return ch }) {
 			progress = true
 		}
-		if try(func(c *LockerIn) bool { ch := c.TailPct != 0; c.TailSeed, c.TailPct = 0, 0; return ch }) {
+		if try(func(c *LockerIn) bool {
+			ch := c.TailPct != 0 || c.PCTDepth != 0
+			c.TailSeed, c.TailPct, c.PCTSeed, c.PCTDepth, c.PCTSpan = 0, 0, 0, 0, 0
+			return ch
+		}) {
 			progress = true
 		}
 		if len(cur.Choices) > 0 {
